@@ -58,6 +58,16 @@ RULE = (
     "Histories additionally keep every returned array alive, call twins of the holder (constructor copy, copy(), deepcopy, "
     "a second object sharing the attribute arrays through copy=False) and fork (a public copy lives on beside the original; "
     "one is edited and called, the other judged again at the end).  "
+    "Round 4.  Every generated case also draws how the request is presented: n and r as Python int or numpy int64 / int32 / "
+    "uint64 / intp / uint32 / int16 / uint16, flipsign as bool or numpy.bool_, by keyword or positionally; the root logger "
+    "untouched / at DEBUG / at INFO during the call; storage of integer-valued data additionally as int8 / int16 / uint16 / "
+    "float16 / float32; holder states read-only arrays shared through copy=False (all four classes), strided view as "
+    "constructor input; and every non-history cell demands that the call leaves every attribute array bit for bit "
+    "unchanged.  C14/nvecs/*/presentation: the same request plainly and as presented, answers compared.  "
+    "C14/nvecs/*/float32: single-precision storage (families of the sampled / large cells and 'wide' spectra spanning "
+    "1 .. 1e-4 in the singular values), judged in double precision against what the holder stores.  Histories: the root "
+    "logger level per step, and ill-formed requests (no such mode, r = 0 / -1 / 1.5) before a valid step with a bit-for-bit "
+    "snapshot of all attribute arrays around them.  "
     "Non-trivial: 1 < r < I_n with separated leading eigenvalues (histories: such a call after an edit)."
 )
 ASSUMPTIONS = [
@@ -95,21 +105,47 @@ ASSUMPTIONS = [
     "does not reproduce the array the holder falls back to the constructor (label state-ctor)",
     "history steps: the value clauses additionally need lambda_1 >= 1e-4*||den_abs||_F^2, where den_abs is the array "
     "denoted by the absolute values of the attributes (an edit may leave pure cancellation noise of a rotated form)",
-    "n, r as numpy.uint8 are not generated: scipy's eigsh does fixed-width arithmetic with the caller's integer type "
-    "(workspace size ncv*(ncv+8) wraps), which is outside what 'count r' promises; float32 data are not generated "
-    "(the tolerances above are for double precision)",
+    "n, r as numpy.uint8 / int8 are not generated, and the 16-bit types only for mode sizes up to 64: scipy's eigsh does "
+    "fixed-width arithmetic with the caller's integer type (workspace size ncv*(ncv+8) wraps), which is outside what "
+    "'count r' promises",
+    "float32 data (cells */float32; tensor data, sptensor vals, ttensor core and - two cases in three - factor matrices; the "
+    "ktensor constructor demands float64): the holder denotes the float32 values exactly, so the reference is eigh of the "
+    "Gram matrix of the float64 copy of what the holder stores, and the bounds are those of a double-precision "
+    "computation (the tight ones of */structured: noise = 1e3 * 1.1e-16 * ||den_abs||_F^2) - single precision limits "
+    "what the data say, not how accurately the library may evaluate it.  For the spectra 'wide-*' (singular values 1, "
+    "1e-2, 1e-4 / 1 .. 1e-4 by decades / 1, .6, .3, 3e-3, 1e-4, then zeros that the float32 rounding turns into a tail of "
+    "~1e-15*lambda_1) 'well separated' means gaps of at least 1e-9*lambda_1 (ratios of 1e2 and more); the projector bound "
+    "noise/gap follows the gap.  Integer-valued data are also stored as float16 / float32 / int8 / int16 / uint16 in every "
+    "cell (exact; scipy.sparse has no float16, so coo factor matrices get float32 then)",
+    "same request in two presentations (cells */presentation): bit for bit on the dense path (LAPACK is deterministic); "
+    "on the iterative path ARPACK's start vector comes from its own generator, whose state carries over between calls, so "
+    "the separated columns are compared up to 1e-6 and up to the sign (the sign rule is judged separately)",
+    "root logger level: set inside the cell to DEBUG / INFO with only a NullHandler installed and logging.disable lifted, "
+    "restored in a finally; stdout is captured by the framework",
+    "ill-formed requests inside histories (mode N, N+3, -N-1; r = 0, -1, 1.5): the property does not say they must be "
+    "rejected (sptensor / ktensor accept n = -1, for example), only that - rejected or not - the object is bit for bit the "
+    "same afterwards and the next valid call is judged as if nothing had happened",
 ]
 
 logging.disable(logging.WARNING)  # pyttb warns through the root logger about memory order on internal copies
 
 
-def _npint(case, v):
-    """n and r as the case asks: plain Python int or a numpy integer scalar"""
-    t = case.get("npint")
-    return int(v) if not t else getattr(np, t)(v)
+def _call(ctx, what, obj, case, n, r, flip, I, seed, log=None, plain=False):
+    """one nvecs call the way the case presents it (numpy scalars for n and r, numpy.bool_ / positional flipsign), with
+    the root logger at the level `log` for the duration of the call (restored afterwards, also after an exception);
+    plain = Python ints, keyword bool, logging untouched"""
+    args, kw = ((int(n), int(r)), dict(flipsign=bool(flip))) if plain else H.present(case, n, r, flip, I)
+    np.random.seed(seed)
+    with H.root_logging(None if plain else log):
+        with ctx.sut(what):
+            return obj.nvecs(*args, **kw)
 
 
-def _verify(ctx, X, V, n, r, flip, pre="", values=True, absnorm2=None):
+def _presentation_labels(case, log):
+    return ["n,r:" + (case.get("npint") or "python-int"), "flipsign:" + (case.get("flipform") or "keyword-bool"), "root-logger:" + (log or "untouched")]
+
+
+def _verify(ctx, X, V, n, r, flip, pre="", values=True, absnorm2=None, sep=H.SEP):
     """the clauses of the property for one answer V = nvecs(n, r, flipsign=flip) of a holder denoting X; `pre` prefixes
     the clause names (history cells: which solver path the step took).  `absnorm2` (cells */structured, */xlarge) =
     squared Frobenius norm of the array the absolute values of the holder's attributes denote: it bounds the rounding
@@ -117,7 +153,7 @@ def _verify(ctx, X, V, n, r, flip, pre="", values=True, absnorm2=None):
     Returns (value clauses applied, reference eigenvalues)."""
     I = X.shape[n]
     G, lam, Vref = H.reference(X, n)
-    k, cls = H.spectrum_class(lam, r)
+    k, cls = H.spectrum_class(lam, r, sep)
     ctx.require(isinstance(V, np.ndarray) and V.shape == (I, r), pre + "nvecs-returns-In-by-r-array",
                 (type(V).__name__, getattr(V, "shape", None)))
     isreal = np.isrealobj(V)
@@ -193,31 +229,52 @@ def _denotes(obj, X):
         raise RuntimeError(f"harness: holder does not denote the model array (max diff {np.max(np.abs(D - X))})")
 
 
-def _check(ctx, case, make_holder, holder_name, tight=False):
+def _f32_model(obj, X):
+    """single-precision storage: the holder denotes the float32 roundings of the model array; the array it denotes (read
+    back in double precision from its attributes) is what the answer is judged against.  Harness precondition: it is
+    the model up to single-precision rounding of the attributes."""
+    D = H.den(obj)
+    scale = float(np.max(H.den_abs(obj), initial=0.0))
+    if not (D.shape == X.shape and np.max(np.abs(D - X), initial=0.0) <= 1e-5 * max(scale, 1e-300)):
+        raise RuntimeError(f"harness: float32 holder is not the rounded model array (max diff {np.max(np.abs(D - X))})")
+    return D
+
+
+def _check(ctx, case, make_holder, holder_name, tight=False, metamorphic=False):
     X = H.dense_of(case)
     n, r, flip = case["n"], case["r"], case["flipsign"]
     I = X.shape[n]
-    _, lam, Vref = H.reference(X, n)
-    k, cls = H.spectrum_class(lam, r)
-    sep = cls == "separated"
-    path = "iterative-path" if r < I - 1 else "dense-path"
-    ctx.nt = 1 < r < I and (sep or k >= 1)
     obj, labels = make_holder(case, X)
+    f32 = H.is_f32(case)
+    sep = H.SEP
+    if f32:
+        X = _f32_model(obj, X)
+        # spectra spanning 1 .. 1e-4 in the singular values: separated by ratios of 1e2 and more, the property's "well
+        # separated" (absolute gaps down to 1e-8 * lambda_1; the tolerance follows the gap)
+        sep = _case_sep(case)
+    _, lam, Vref = H.reference(X, n)
+    k, cls = H.spectrum_class(lam, r, sep)
+    sep_ = cls == "separated"
+    path = "iterative-path" if r < I - 1 else "dense-path"
+    ctx.nt = 1 < r < I and (sep_ or k >= 1)
     labels = labels + H.case_labels(case)
     if cls == "separated-then-negligible":
         labels = labels + ["r-beyond-the-numerical-rank" if k else "all-zero-tensor", "tail:" + path]
-    if sep:
+    if sep_:
         labels = labels + _lead_structure(Vref, r)
     if isinstance(obj, ttb.ttensor) and isinstance(obj.core, ttb.sptensor):
         # sptensor.ttm answers with a sparse or a dense tensor depending on the density (threshold one half), and
         # ttensor.nvecs has one branch for each
         d = obj.core.nnz / max(1, ref.prod(obj.core.shape))
         labels = labels + ["core-density<=half" if d <= 0.5 else "core-density>half"]
+    log = case.get("log")
     ctx.label(holder_name, "family-" + case["family"], "spec-" + str(case.get("spectrum")), f"order{X.ndim}", path,
               cls, "flipsign" if flip else "noflip",
               "r=1" if r == 1 else ("r=I" if r == I else ("r=I-1" if r == I - 1 else "1<r<I-1")),
-              "n,r:" + (case.get("npint") or "python-int"), _magnitude(X),
+              *_presentation_labels(case, log), _magnitude(X),
               "I>20" if I > 20 else "I<=20", *labels)
+    if f32 and k >= 3 and float(lam[k - 1]) <= 1e-6 * float(lam[0]):
+        ctx.label("f32:requested-eigenvalue<=1e-6*lambda_1")
     if I > 20 and path == "iterative-path":
         ctx.label("subspace>20" if 2 * r + 1 > 20 else "subspace=20")
     if I >= 60:
@@ -238,10 +295,25 @@ def _check(ctx, case, make_holder, holder_name, tight=False):
         values = float(lam[0]) >= 1e-4 * absn2
         if not values:
             ctx.label("ill-conditioned-representation")
-    np.random.seed(case["np_seed"])
-    with ctx.sut(f"{holder_name}.nvecs"):
-        V = obj.nvecs(_npint(case, n), _npint(case, r), flipsign=flip)
-    _verify(ctx, X, V, n, r, flip, values=values, absnorm2=absn2)
+    snap = H.snapshot(obj) if X.size <= 20000 else None
+    V0 = None
+    if metamorphic:
+        V0 = _call(ctx, f"{holder_name}.nvecs", obj, case, n, r, flip, I, case["np_seed"], plain=True)
+    V = _call(ctx, f"{holder_name}.nvecs", obj, case, n, r, flip, I, case["np_seed"], log=log)
+    if snap is not None:
+        ctx.check(H.same_snapshot(obj, snap), "nvecs-leaves-the-object-unchanged")
+    applied, _ = _verify(ctx, X, V, n, r, flip, values=values, absnorm2=absn2, sep=sep)
+    if metamorphic:
+        # the same request, presented plainly: same answer - bit for bit where the solver is deterministic (dense path),
+        # to the property's bound where ARPACK draws its start vector (separated columns, up to the sign when the sign
+        # rule is off or the two largest magnitudes tie)
+        ctx.require(isinstance(V0, np.ndarray) and V0.shape == V.shape, "same-request-same-shape", (getattr(V0, "shape", None), V.shape))
+        ctx.check(V0.dtype == V.dtype, "same-request-same-dtype", (str(V0.dtype), str(V.dtype)))
+        if path == "dense-path":
+            ctx.check(ref.same_exact(np.abs(V0 - V), np.zeros(V.shape)), "same-request-same-answer-exactly", float(np.max(np.abs(V0 - V), initial=0.0)))
+        elif applied and np.isrealobj(V0) and np.isrealobj(V):
+            d = [min(float(np.linalg.norm(V0[:, j] - V[:, j])), float(np.linalg.norm(V0[:, j] + V[:, j]))) for j in range(k)]
+            ctx.check(max(d, default=0.0) <= 1e-6, "same-request-same-answer", max(d, default=0.0))
 
 
 def _history(ctx, case, make_holder, holder_name):
@@ -253,7 +325,7 @@ def _history(ctx, case, make_holder, holder_name):
     API lives on beside the original, one of them is edited and called, the other one is judged again at the end."""
     X = H.dense_of(case)
     obj, labels = make_holder(case, X)
-    ctx.label(holder_name, "family-" + case["family"], f"steps={len(case['steps'])}", *labels)
+    ctx.label(holder_name, "family-" + case["family"], f"steps={len(case['steps'])}", *_presentation_labels(case, None)[:2], *labels)
     _denotes(obj, X)
     edited = False
     nt = False
@@ -281,6 +353,21 @@ def _history(ctx, case, make_holder, holder_name):
             ctx.skip("edit overflowed")
         n, r, flip = s["n"], s["r"], s["flipsign"]
         I = Xk.shape[n]
+        if s.get("reject"):
+            # a request outside the domain (no such mode, a count that is not a positive integer), rejected or not: the
+            # object is the same afterwards, bit for bit in every attribute, and the valid step that follows is judged as if
+            # nothing had happened
+            rj = s["reject"]
+            bn, br = H.rejected_args(rj["kind"], rj["n"], Xk.ndim, Xk.shape[rj["n"]])
+            snap = H.snapshot(obj)
+            np.random.seed(s["np_seed"])
+            try:
+                with H.root_logging(rj.get("log")):
+                    obj.nvecs(bn, br, flipsign=flip)
+                ctx.label("ill-formed-request-accepted", "ill-formed-accepted:" + rj["kind"])
+            except Exception:  # noqa: BLE001
+                ctx.label("ill-formed-request-rejected", "ill-formed-rejected:" + rj["kind"])
+            ctx.check(H.same_snapshot(obj, snap) and ref.same_exact(H.den(obj), Xk), "rejected-request-leaves-the-object-unchanged", rj["kind"])
         target = obj
         if s.get("fresh"):
             t = H.twin(obj, s["fresh"])
@@ -288,9 +375,8 @@ def _history(ctx, case, make_holder, holder_name):
                 target = t
                 ctx.label("call-on-" + ("ctor-copy" if s["fresh"] is True else str(s["fresh"])))
         path = "iterative-path:" if r < I - 1 else "dense-path:"
-        np.random.seed(s["np_seed"])
-        with ctx.sut(f"{path}{holder_name}.nvecs"):
-            V = target.nvecs(_npint(case, n), _npint(case, r), flipsign=flip)
+        V = _call(ctx, f"{path}{holder_name}.nvecs", target, case, n, r, flip, I, s["np_seed"], log=s.get("log"))
+        ctx.label("step-root-logger:" + (s.get("log") or "untouched"))
         # an edit can make the object denote pure cancellation noise (e.g. zeroing the factor row that carried all the
         # data of a rotated Tucker form): the value clauses need the leading eigenvalue to stand clear of the rounding
         # noise of the representation, 1e-16 * ||den_abs||^2 (bound: noise / (SEP * lambda_1) <= 1e-8 << 1e-6)
@@ -325,9 +411,7 @@ def _history(ctx, case, make_holder, holder_name):
         else:
             n, r, flip = s0["n"], s0["r"], s0["flipsign"]
             pre = "fork:" + ("iterative-path:" if r < Xf.shape[n] - 1 else "dense-path:")
-            np.random.seed(s0["np_seed"])
-            with ctx.sut(f"{pre}{holder_name}.nvecs"):
-                V = other.nvecs(_npint(case, n), _npint(case, r), flipsign=flip)
+            V = _call(ctx, f"{pre}{holder_name}.nvecs", other, case, n, r, flip, Xf.shape[n], s0["np_seed"], log=s0.get("log"))
             lam1 = float(H.reference(Xf, n)[1][0])
             sep, _ = _verify(ctx, Xf, V, n, r, flip, pre=pre, values=lam1 >= 1e-4 * float(np.sum(H.den_abs(other) ** 2)))
             ctx.label("fork-judged-" + ("separated" if sep else "not-separated") + ("-after-edit-of-the-other" if edited else ""))
@@ -383,6 +467,20 @@ def _register(holder):
         """a few large cases: mode sizes 60..200, 1e4+ stored nonzeros, tall factor matrices"""
         _check(ctx, case, _m, _c, tight=True)
 
+    @cell(f"C14/nvecs/{holder}/presentation", strategy=lambda tier: H.presentation_case(tier, cls=cls, states=states), quick=20, thorough=200,
+          shards=(1, 4))
+    def presentation(ctx, case, _m=make, _c=cls):
+        """the same request presented plainly and as ordinary callers do (numpy integer scalars for n and r, numpy.bool_ or
+        positional flipsign) with the root logger at DEBUG / INFO: same answer, and the answer obeys the property"""
+        _check(ctx, case, _m, _c, metamorphic=True)
+
+    if cls != "ktensor":  # the ktensor constructor demands float64 factor matrices
+        @cell(f"C14/nvecs/{holder}/float32", strategy=lambda tier: H.float32_case(tier, states=states), quick=25, thorough=250, shards=(1, 4))
+        def float32(ctx, case, _m=make, _c=cls):
+            """single-precision data (values / core / factor matrices stored as float32): judged against eigh of the Gram
+            matrix of the float64 copy of the stored values, with the double-precision tolerances of */structured"""
+            _check(ctx, case, _m, _c, tight=True)
+
     @cell(f"C14/history/{holder}", strategy=lambda tier: H.history_case(tier, states=states, cls=cls), quick=140, thorough=5500, shards=(1, 8))
     def history(ctx, case, _m=make, _c=cls):
         """2..4 calls on one object with in-place edits of its attribute arrays in between"""
@@ -416,9 +514,7 @@ def long_modes(ctx, case):
               "cells>=2**63" if ref.prod(shape) >= 2 ** 63 else "cells<2**63",
               *(["indices-2**53-and-2**53+1"] if any({2 ** 53, 2 ** 53 + 1} <= set(spec["used"]) for spec in case["long"].values()) else []))
     ctx.nt = 1 < r < I and cls != "not-separated"
-    np.random.seed(case["np_seed"])
-    with ctx.sut("sptensor.nvecs"):
-        V = S.nvecs(_npint(case, n), _npint(case, r), flipsign=flip)
+    V = _call(ctx, "sptensor.nvecs", S, case, n, r, flip, I, case["np_seed"], log=case.get("log"))
     _verify(ctx, X, V, n, r, flip)
 
 
@@ -444,10 +540,20 @@ def _int_storage(case):
     return H.int_dtype_of(case, H.dense_of(case)) is not None
 
 
+def _case_sep(case):
+    return 1e-9 if H.is_f32(case) and str(case.get("spectrum", "")).startswith("wide") else H.SEP
+
+
 def _repeated_tail(case):
     """the request reaches into the negligible tail of the spectrum (a repeated, numerically zero eigenvalue)"""
     lam = H.reference(H.dense_of(case), case["n"])[1]
-    return H.spectrum_class(lam, case["r"])[1] == "separated-then-negligible"
+    return H.spectrum_class(lam, case["r"], _case_sep(case))[1] == "separated-then-negligible"
+
+
+def _f32_rotation_factors(case):
+    """float32 core *and* float32 factor matrices (as_ttensor keeps the factors float64 when tseed is a multiple of 3) that
+    are rotations (the block family with an even tseed gets permutation factors, whose Gram matrices are exact)"""
+    return H.is_f32(case) and case.get("tseed", 0) % 3 != 0 and not (case["family"] == "block" and case.get("tseed", 0) % 2 == 0)
 
 
 ARPACK_FLOOR = float(np.finfo(float).eps) ** (2.0 / 3.0)  # 3.67e-11: dsconv tests bounds <= tol * max(eps23, |ritz|)
@@ -470,9 +576,13 @@ def _history_below_floor(case):
 
 
 PREDICATES = {
+    "ttensor_float32_rotation_factors": _f32_rotation_factors,
+    # coo-factors holder: the core is dense (and the form a rotation) only when tseed is a multiple of 4
+    "ttensor_float32_rotation_coo_factors": lambda case: _f32_rotation_factors(case) and case.get("tseed", 0) % 4 == 0,
     "iterative_path_gram_below_arpack_floor": _below_floor,
     "history_gram_below_arpack_floor": _history_below_floor,
     "long_other_mode": lambda case: any(int(spec["L"]) >= 2 ** 40 for spec in case.get("long", {}).values()),
+    "dense_path_f32_wide_spectrum": lambda case: case["r"] >= _In(case) - 1 and _case_sep(case) < H.SEP,
     "dense_path_repeated_tail": lambda case: case["r"] >= _In(case) - 1 and _repeated_tail(case),
     # integer core and integer factor matrices (as_ttensor keeps the factors float when tseed is a multiple of 3)
     "ttensor_all_integer_iterative": lambda case: _int_storage(case) and case.get("tseed", 0) % 3 != 0 and case["r"] < _In(case) - 1,
